@@ -25,8 +25,10 @@ CLAIMS = {
              "declared role, owner and resources, and every generated pair of declarations (including names that "
              "differ only in LIKE wildcards) is applied in both orders on fresh workflows (accept/reject, message "
              "text, resulting graph).",
-        note=BASE_NOTE + "Message texts are compared on the implementation only. Static-tree exclusivity over histories is not a theorem "
-             "(false of the code: F21). Known findings F15-F19 and F21 (glob versus a product not yet on disk, nested "
+        note=BASE_NOTE + "Message texts are compared on the implementation only. Over histories: every attached file has a role and an existing creator (unconditional); "
+             "static trees never nest and own every attached file beneath them for histories whose recycling defines "
+             "bring back a consistent subtree (the F21 mechanism is the guard, with three kernel-checked counterexamples "
+             "replayed on the real code); products are created by steps and have no second producer. Known findings F15-F19 and F21 (glob versus a product not yet on disk, nested "
              "trees of one creator, four wording differences, three recycle-reattachment classes) are listed in "
              "known_findings.jsonl; F12 was fixed.",
         technique="Lean 4 proof of the guard decision logic + kernel correspondence + both-orders differential oracle",
@@ -57,7 +59,10 @@ CLAIMS = {
              "and none waits to be retired; a parked loop has its wake event clear and, with a free slot, no job on offer "
              "and no unclaimed queued hash job; the inner loop terminates within njob+4 passes; the wake-setting sites "
              "(_task_done, handle_done_tasks, HashQueue.submit, define_step and release_dispatch handlers) are regenerated "
-             "from the source by ast.",
+             "from the source by ast. Composed with the kernel (pop_next_job as the loop's scheduler): a started job was answered "
+             "for a step eligible in the refreshed state; a phase that is not draining ends only when no step is eligible in "
+             "the kernel state; no lost wake-up under a named proviso whose necessity is a kernel-checked run reproduced on "
+             "the real code (a promoted hash job delays a dispatch until the next wake-up).",
         note=BASE_NOTE + "Priority among eligible steps is not part of the property. Phase termination is relative to "
              "'every started command terminates' plus the defer cap. The side conditions of the discipline theorems "
              "(constant targets between reconciliations, no raw detach of an output file, no 'safe' definition below a "
@@ -97,7 +102,8 @@ CLAIMS = {
              "HashQueue (every sequence of scheduler answers, hash submissions/promotions, task endings and exceptions): "
              "running_tasks never exceeds njob, promoted work outside the budget is hashing only, every started job is "
              "accounted for and its completion reported once; the two `<` guards and the absence of other start sites are "
-             "regenerated from the source by ast. The oracle checks resource sums of RUNNING steps and "
+             "regenerated from the source by ast; composed with the kernel, every RUNNING row is the step of a job whose task is "
+             "in running_tasks. The oracle checks resource sums of RUNNING steps and "
              "holding creators on the real database after every request, the job limit on the real Builder driven by "
              "event scripts, and job limit, overlap and hold blocks on simulated builds.",
         note=BASE_NOTE + "The job-loop model is tied to builder.py/hash_queue.py by running the real classes with a stub "
